@@ -204,3 +204,12 @@ CHECKS["C13"] = dict(
     outside=["gcc LeakyBucketPacer, packetdump, stats, jitter buffer interceptor, twcc sender", "race detection between the interceptor's goroutines and the scribbling caller (see C10)", "histories longer than 2-3 packets"],
     assumptions=["sync.Pool LIFO", "cooperative threads"],
 )
+
+CHECKS["C11"] = dict(
+    jobs=[dict(pkg="internal/verifchain", entry="HC11Lifecycle", params=dict(kind=k), flags=["-unwind", "1200"], require_covers=["traffic after close returned", "rebind"]) for k in range(8)],
+    level_note="PARTIAL CLAIM: lifecycle sequences are issued by one harness thread; the interceptor's own goroutines run in a cooperative model (they run when the caller blocks or yields; every select choice is explored), i.e. schedules at synchronisation granularity, not pre-emptive interleavings; 'promptly' is read as 'returns' (a call that can never return is reported as 'all goroutines blocked'). Close racing with traffic from another goroutine is not explored.",
+    bounds=dict(quick="each of {NoOp, TWCC header extension, NACK responder, NACK generator, report sender, report receiver, TWCC sender, RFC 8888 sender}: BindRTCPWriter (writer failing nondeterministically), BindLocalStream, BindRemoteStream, BindRTCPReader; optional traffic (one write, one read of a well-formed TWCC-tagged packet, one failing RTCP read); optional Unbind+Bind of the same SSRCs with traffic; Close; the same traffic after Close; Unbind after Close",
+                thorough="same"),
+    outside=["Close concurrent with traffic on another goroutine", "ticker fires during the sequence", "intervalpli, stats, packetdump, pacing, gcc, jitter buffer, flexfec interceptors", "release of per-stream memory (see C12)"],
+    assumptions=["cooperative thread model", "tickers never fire unless fired by the harness"],
+)
